@@ -36,6 +36,11 @@ SharedFormNames(d) ==
        LET p == d.m["parameters"].m[n] IN Opt(p, "in") = S("formData") /\ Opt(p, "type") # S("file")}
 SharedFormFields(d) == {StrOf(Opt(d.m["parameters"].m[n], "name"), "?") : n \in SharedFormNames(d)}
 
+(* shared form parameters stored under a key that is also the key of a definition: component name -> field name *)
+CollidingFormNames(d) ==
+   {n \in Keys(Sub(d, "parameters")) \cap Keys(Sub(d, "definitions")) : Opt(d.m["parameters"].m[n], "in") = S("formData")}
+CollidingFormFields(d) == {StrOf(Opt(d.m["parameters"].m[n], "name"), "?") : n \in CollidingFormNames(d)}
+
 (* the `produces` the converter applies to the response at ops/<opkey>/responses/<code> *)
 ProducesAt(d, opkey, code) ==
    LET paths == Sub(d, "paths")
@@ -123,6 +128,20 @@ Class(line, v) ==
                  /\ Keys(Sub(v.exp, "fields")) \subseteq SharedFormFields(d)
               \/ /\ Len(p) = 5 /\ p[3] = "body" /\ p[4] = "fields" /\ v.got = Absent /\ p[5] \in SharedFormFields(d)
       THEN "back_shared_form_parameter_becomes_definition"
+   \* F-C17-20 ToV3 keeps a shared form parameter as components.schemas[<its key>] and writes the definitions into the same
+   \*          map afterwards: under the key of a definition the form parameter is replaced by that definition, the form field
+   \*          of every operation using it gets the definition's schema (and on the way back the operation refers to a shared
+   \*          parameter that is not there)
+   ELSE IF /\ CollidingFormNames(d) # {} /\ Len(p) >= 3 /\ p[1] = "ops"
+           /\ \/ /\ IsFwd(v) /\ Len(p) >= 6 /\ p[3] = "body" /\ p[4] = "fields" /\ p[5] \in CollidingFormFields(d)
+              \/ /\ IsBack(v) /\ Len(p) = 4 /\ p[3] = "params" /\ p[4] = "$bad" /\ v.exp = Absent /\ v.got.t = "arr"
+                 /\ \A i \in DOMAIN v.got.a :
+                       \E n \in CollidingFormNames(d) \cup SharedFormNames(d) : v.got.a[i] = O(KV("$badref", S("#/parameters/" \o n)))
+              \/ /\ IsBack(v) /\ Len(p) = 3 /\ p[3] = "body" /\ v.got = Nul /\ Opt(v.exp, "kind") = S("form")
+                 /\ Keys(Sub(v.exp, "fields")) \subseteq SharedFormFields(d) \cup CollidingFormFields(d)
+                 /\ Keys(Sub(v.exp, "fields")) \cap CollidingFormFields(d) # {}
+              \/ /\ IsBack(v) /\ Len(p) = 5 /\ p[3] = "body" /\ p[4] = "fields" /\ v.got = Absent /\ p[5] \in CollidingFormFields(d)
+      THEN "shared_form_parameter_key_is_definition_key"
    \* F-C17-6  only references directly under additionalProperties are rewritten by ToV3
    ELSE IF v.failed = "to_v3_error" /\ RefBelowAp(d)
       THEN "to_v3_fails_reference_below_additionalproperties"
